@@ -40,7 +40,7 @@ CHECKS = {
         "group query of every function not excluded from initialisation, excluded functions are never queried, the submissions are one GET per plan entry followed by SYS:VERSION last; "
         "for EVERY message history the event is set exactly by a SYS:VERSION message, every message before it has been completely processed (so C03 applies: readable), no notification "
         "before initialisation; the time-out is base + per_cmd * (#queries) from the regenerated constants. The real SubunitBase.initialize of all 23 classes runs on a real connection under "
-        "the deterministic harness with devices answering all/some/none, late or missing sync replies, floods and stray VERSION lines; submissions compared with the model, barrier / time-out "
+        "the deterministic harness with devices answering all/some/none, late or missing sync replies, floods, stray VERSION lines and steady unrelated traffic outlasting every time-out (a failing call must take exactly as long with it as without); submissions compared with the model, barrier / time-out "
         "/ callback gating judged by a monitor.",
         note=BASE_NOTE + HARNESS_NOTE + " PARTIAL: the barrier is proved for the reader's sequential processing order; that the caller wakes only after the reader set the event is threading.Event's contract (harness).",
         technique="Coq proof (induction over histories, reflection over regenerated tables) + differential correspondence via deterministic simulation",
@@ -50,7 +50,7 @@ CHECKS = {
         text="Coq theorems over Model/Api.v for EVERY list of messages delivered during detection: the exposed set is exactly SYS plus the ids whose AVAIL line with a value was delivered, "
         "each id maps to the class with that id (regenerated tables, ids unique), detection submits one AVAIL query per known id and the sync query last; population reduces to C06 + C03 per "
         "exposed subunit. The real YncaApi.initialize() runs under the deterministic harness against the 12 recorded receivers, random synthetic devices (subsets of subunits/functions, "
-        "unsolicited updates, latency/jitter) and PAIRS of API objects on different devices initialising concurrently; accessor sets compared with the model, values with an independent reference.",
+        "unsolicited updates, latency/jitter, receivers that sleep through their first one or two lines) and PAIRS of API objects on different devices initialising concurrently; accessor sets compared with the model, values with an independent reference.",
         note=BASE_NOTE + HARNESS_NOTE + " PARTIAL: device predicates (FIFO replies, AVAIL lines only in answer to the AVAIL query) are hypotheses validated against the 12 recordings only.",
         technique="Coq proof (induction over delivered messages, reflection over regenerated tables) + differential correspondence via deterministic simulation",
         design_ref="6 (C07)",
@@ -59,7 +59,7 @@ CHECKS = {
         text="Coq theorems: every wait of initialize() is a timed wait whose bound is a closed form over the regenerated constants and tables (phases_bound), the worst case over all 23 classes "
         "is <= 300 s; after close() the accessors are cleared, the connection dropped and (C16) the port closed and threads stopped. Fault enumeration on the real code under the deterministic "
         "harness: for a recorded and synthetic devices, silence after the k-th reply for every k, end-of-file / I/O error after byte offsets including the end of EVERY synchronisation reply "
-        "(between two phases) and inside CR LF, write errors at every other write, port-open failure; monitor: library exception, within the bound, nothing left behind.",
+        "(between two phases) and inside CR LF, write errors at every other write, port-open failure; monitor: library exception, within the bound, nothing left behind. Devices include receivers with one zone only (the subunits initialised last are input sources).",
         note=BASE_NOTE + HARNESS_NOTE + " PARTIAL: 'raises rather than returns' for each fault position is established by the enumeration on the real code (every k in quick for the recorded device, strided for others), not by a theorem about the Python exception flow.",
         technique="Coq proof (closed-form bound by reflection over regenerated constants) + exhaustive fault-position enumeration via deterministic simulation",
         design_ref="6 (C14)",
@@ -68,7 +68,7 @@ CHECKS = {
         text="Coq theorems over the connection-check machine (Model/Api.cc_run) for EVERY list of delivered messages: the result is the last model name delivered together with exactly the "
         "zones whose AVAIL value was delivered before it, no model name means the connection error, parser messages are well formed; the regenerated time-out is 1.5 s; the temporary connection "
         "is closed in every outcome (C16). The real connection_check() runs under the deterministic harness over all 16 zone subsets x latencies around the 100 ms pacing x swallowed first probe "
-        "x fault points x schedules; results compared with the model and judged by a monitor.",
+        "x fault points x schedules; results compared with the model and judged by a monitor; also called from inside a message callback of another live connection; the temporary connection's threads must have ended when the call returns.",
         note=BASE_NOTE + HARNESS_NOTE,
         technique="Coq proof (induction over delivered messages) + exhaustive grid correspondence via deterministic simulation",
         design_ref="6 (C17)",
@@ -86,7 +86,7 @@ CHECKS = {
         "number of decimals; k*step is nearest for EVERY integer j; sign/format shape), reflection over the regenerated descriptors (every stepped "
         "function has admissible parameters, the prescribed (decimals, step) pair and MAXVOL alone the 16.5 literal), and a theorem that a numeric "
         "assignment to any stepped attribute yields exactly one PUT carrying that text. The real helper and every stepped attribute are swept over "
-        "grid points, tie points and their +-3 ulp neighbours and compared with the model (vm_compute).",
+        "grid points, tie points and their +-3 ulp neighbours and compared with the model (vm_compute); also after the device has reported values for all stepped functions of the object (the receiver's state plays no part).",
         note=BASE_NOTE + "Modelled, not verified: CPython Fraction arithmetic, round(), str(int); the translator's AST reading of the to_str lambdas.",
         technique="Coq proof (lia/nia over Z) + reflection over generated descriptors + differential sweep",
         design_ref="6 (C11)",
@@ -104,7 +104,7 @@ CHECKS = {
         text="Coq theorem by induction over histories: for every generated subunit class, every oracle and EVERY message history, a read returns the decoding "
         "of the most recent decodable value reported for exactly that subunit id and function name (else None); non-interference lemmas; totality of the handler; "
         "reflection over the regenerated tables (function names unique per class, ids unique). Real instances of all 23 classes are driven through a real "
-        "YncaConnection with generated histories and compared with an independent reference after messages and with the model at the end.",
+        "YncaConnection with generated histories and compared with an independent reference after messages and with the model at the end; in addition the device sends such histories as bytes over a live connection under the deterministic harness (reader thread, framing, keep-alive handling) and the attributes are read at the end.",
         note=BASE_NOTE + "Modelled, not verified: dict/descriptor protocol of CPython; 'reading transmits nothing' holds by construction in the model and is checked on the implementation by counting transmissions.",
         technique="Coq proof by induction over message histories + reflection + differential correspondence",
         design_ref="6 (C03)",
@@ -113,7 +113,7 @@ CHECKS = {
         text="Coq theorems about the whole reader-thread path as one total function with explicit exceptions (framing -> UTF-8 replace decoding -> parse -> every "
         "subunit handler incl. value decoding): never Raise for EVERY chunk sequence / instance set / oracle; composition (later input processed normally); an undecodable "
         "value keeps the previous value; typing invariant of all cached values. The real path (YncaProtocol.data_received -> YncaConnection -> 23 real instances) is fed "
-        "every (function x odd text) line and random hostile streams, judged by monitors, and compared with the model.",
+        "every (function x odd text) line, runs of 2..200 (thorough ..5000) malformed / undecodable / error / invalid-UTF-8 / unknown lines back to back, and random hostile streams, judged by monitors, and compared with the model.",
         note=BASE_NOTE + "Modelled, not verified: that an exception escaping data_received ends pyserial's reader loop (read from pyserial's source); user callbacks that raise are outside the statement.",
         technique="Coq proof (total function with explicit exception channel, invariants) + differential correspondence on hostile byte streams",
         design_ref="6 (C10)",
@@ -133,7 +133,7 @@ CHECKS = {
         "interleaving, any device): FIFO (enq = deq ++ queue), exactly-once/in-order (written items ++ item in hand = non-marker items dequeued), wire is a prefix of the "
         "submissions, per-caller order, idle implies all written, each write is frame(text) = one CRLF line that decodes back unchanged, only the sender writes. "
         "The real ynca/pyserial threads run unmodified under a deterministic simulation harness; each recorded event trace is replayed in the model (every event must be enabled; "
-        "wire, deliveries and log equal) and judged by an independent monitor. A quarter of the sessions run beside a second, independent connection of the same process and a fifth are the second session of the same object (nothing may cross over or carry over).",
+        "wire, deliveries and log equal) and judged by an independent monitor. A quarter of the sessions run beside a second, independent connection of the same process and a fifth are the second session of the same object (nothing may cross over or carry over). 4 % of the sessions contain a burst of 70-300 (thorough -1100) commands; per caller, the commands handed to put/get/raw while the connection was up are compared with what entered the queue.",
         note=BASE_NOTE + "Modelled, not verified: pyserial ReaderThread/LineReader, queue.Queue, threading.Event/Lock/Thread.join, time.sleep and the port are replaced by the harness's simulated primitives (their contracts are the model's assumptions); real-clock behaviour and OS scheduling latency are outside every theorem.",
         technique="Coq proof by invariants over a labelled transition system (all schedules) + trace-inclusion correspondence via deterministic simulation",
         design_ref="6 (C01), 3.3, 4.2",
@@ -197,7 +197,7 @@ CHECKS = {
         text="Coq LTS of the life cycle with any number of concurrent/repeated close() calls on other threads and close() on the reader thread itself; invariants for EVERY action list: "
         "once a close() has started (_closed set) the user's disconnect callback is never invoked again; a cleared callback stays cleared and is never invoked after a later read; once a "
         "close() has returned the port is closed, the reader is told to stop, and no sender write can succeed; close() can start in any state and its join has a finite deadline. "
-        "Sessions with close() from caller threads, the main thread, inside message/disconnect callbacks, during connect(), repeated and concurrent, are simulated, replayed and monitored. Progress measure for close(): moved only by its own steps, each strictly forward (at most seven after it started). Scenarios include close() after the link was already lost and close() while YncaApi.initialize() is running.",
+        "Sessions with close() from caller threads, the main thread, inside message/disconnect callbacks, during connect(), repeated and concurrent, are simulated, replayed and monitored. Progress measure for close(): moved only by its own steps, each strictly forward (at most seven after it started). Scenarios include close() after the link was already lost, close() while YncaApi.initialize() is running, and close() inside a message callback followed by connect() on the same object (in the callback or from another thread) before the callback has returned. For that case a second model (Model/Reconnect.v: the object's _closed flag shared by two sessions, the old protocol's callback, the old reader winding down at any point) with flags read off the AST of close()/connect(): because close() clears the old protocol's callback, no order of close / connect / old-reader steps invokes the user's callback; the flag alone suffices only without a reconnect, and is refuted with one (witness history); the recorded two-session traces are replayed in that model.",
         note=BASE_NOTE + "Modelled, not verified: pyserial ReaderThread/LineReader, queue.Queue, threading.Event/Lock/Thread.join, time.sleep and the port are replaced by the harness's simulated primitives (their contracts are the model's assumptions); real-clock behaviour and OS scheduling latency / thread teardown are outside every theorem." + " PARTIAL: 'returns without raising' is absence of a raising transition in the transcribed close(), tied to the code by replay (a raise is an event the model refuses).",
         technique="Coq proof by invariants over an LTS (all interleavings of closers, reader and sender) + trace-inclusion correspondence via deterministic simulation",
         design_ref="6 (C16)",
